@@ -110,10 +110,11 @@ theorem sortDesc_mem (x : Obj) (l : List Obj) (h : x ∈ sortDesc l) : x ∈ l :
 
 theorem slice_mem {α} (x : α) (l : List α) (o m : Option Int) (h : x ∈ slice l o m) : x ∈ l := by
   unfold slice at h
-  simp only at h
   split at h
-  · exact List.mem_of_mem_drop (List.mem_of_mem_take h)
+  · exact List.mem_of_mem_take (List.mem_of_mem_drop h)
   · exact List.mem_of_mem_drop h
+  · exact List.mem_of_mem_take h
+  · exact h
 
 /-- Locate only ever returns identifiers of objects that are in the store (so never a
 dead one) and that the requester may locate. -/
